@@ -19,7 +19,13 @@ where
     let tname = <T as TesterApi<S>>::NAME;
     let wit = || json!({"tester": tname, "history": history_json(init, h)});
     let mut tester = T::fresh(init.clone());
-    let first_err = feed(&mut tester, h);
+    // every other history is recorded through `on_invret` wherever an invocation is directly
+    // followed by its own return (decided by the history's hash, so replays agree)
+    let invret = hash_of(h) & 1 == 1 && has_adjacent_pair(h);
+    if invret {
+        case.add(&format!("histories_fed_through_on_invret_{}", tname), 1);
+    }
+    let first_err = feed_with(&mut tester, h, invret);
     if well_formed(h) {
         if let Some(i) = first_err {
             case.violation(&format!("{}/{}/{}/well-formed-history-rejected", pid, tname, S::NAME), json!({"case": wit(), "event": i}));
@@ -75,7 +81,18 @@ where
         // sticky: every later call fails, the history stays inconsistent
         let mut t2 = T::fresh(init.clone());
         let at = expected_at.unwrap();
-        let _ = feed(&mut t2, &h[..=at].to_vec());
+        // (cut after the offending event: when it is the invocation of an `on_invret` pair, the
+        // pair's return belongs to the rejected call and is skipped below)
+        let _ = feed_with(&mut t2, &h[..=at].to_vec(), false);
+        if invret {
+            // the same prefix through on_invret must have been rejected at the same event
+            let mut t3 = T::fresh(init.clone());
+            let cut = if matches!((&h[at], h.get(at + 1)), (Ev::Inv(a, _), Some(Ev::Ret(b, _))) if a == b) { at + 1 } else { at };
+            if feed_with(&mut t3, &h[..=cut].to_vec(), true) != Some(at) || t3.is_consistent() {
+                case.violation(&format!("{}/{}/{}/ill-formed-event-not-rejected-by-on_invret", pid, tname, S::NAME), wit());
+                return None;
+            }
+        }
         for e in &h[at + 1..] {
             let ok = match e {
                 Ev::Inv(t, op) => t2.on_invoke(*t, op.clone()).is_ok(),
